@@ -20,7 +20,7 @@ CONSTANTS
   Exclusive = FALSE
   MinClasses = 1
   MinNodes = 4
-  CodeDevs <- AllDevs
+  CodeDevs <- CurrentDevs
 INVARIANT TypeOK
 INVARIANT RoundTripExact
 INVARIANT RoundTripPrinted
